@@ -10,6 +10,13 @@ package main
 //                                                        InstantiatingModule, FindModuleByNamespace incl. simultaneous
 //                                                        first-time lookups, ReadOnly, DefaultValues, GetErrors, Print);
 //                                                        every result must equal the sequential one
+//   harness race errsets   <iterations> <seed> [repo]   independent module sets that each contain error-producing
+//                                                        constructs (the same malformed posix-pattern, a bad range, an
+//                                                        unknown type, ...) at positions / file names of their own are
+//                                                        processed one after the other (random orders) and in parallel;
+//                                                        each set's full error list, positions included, must equal what
+//                                                        a FRESH PROCESS that handles only this set prints
+//                                                        (`harness race errdump <k> 0`, run as a child process)
 //   harness race selftest  0 0                          two goroutines race on purpose (is the detector on?)
 //
 // exit 0 and a line "OK ..." | exit 3 and lines "DIFF ..." | the race detector prints "WARNING: DATA RACE" and,
@@ -20,6 +27,7 @@ import (
 	"fmt"
 	"math/rand"
 	"os"
+	"os/exec"
 	"path/filepath"
 	"runtime/debug"
 	"sort"
@@ -47,6 +55,12 @@ func init() {
 			return c19Pipelines(iters, seed, repo)
 		case "readers":
 			return c19Readers(iters, seed, repo)
+		case "errsets":
+			return c19ErrSets(iters, seed, repo)
+		case "errdump": // fresh-process baseline of one error-producing set: `race errdump <k> 0`
+			ms, errs := c19Load(c19ErrSet(iters))
+			fmt.Print(c19Dump(ms, errs))
+			return 0
 		case "selftest":
 			return c19Selftest()
 		}
@@ -684,4 +698,112 @@ func c19Readers(iters int, seed int64, repo string) int {
 	}
 	fmt.Printf("OPS %s queries=%d\n", strings.Join(ops, " "), nq)
 	return c19Finish("readers", iters, seed, runs, len(sets), diffs)
+}
+
+// ------------------------------------------------------------------------------- mode errsets
+
+const c19NErrSets = 7
+
+// c19ErrSet: a module set of its own (own file names, own line numbers) whose Process reports errors.
+// The sets share the TEXT of the offending constructs -- whatever the library remembers about such a construct
+// must not leak from one set into another.
+func c19ErrSet(k int) c19Set {
+	K := strconv.Itoa(k)
+	pad := strings.Repeat("\n", k)
+	ext := "module openconfig-extensions {\n  namespace \"urn:oc-ext\";\n  prefix oc-ext;\n  extension posix-pattern { argument pattern; }\n}\n"
+	var body strings.Builder
+	body.WriteString("  leaf good { type string { oc-ext:posix-pattern \"^[a-z]+$\"; pattern \"[a-z]+\"; } }\n" + pad)
+	body.WriteString("  leaf badpat { type string { oc-ext:posix-pattern \"^[0-9a-f\"; } }\n")
+	if k%2 == 0 {
+		body.WriteString(pad + "  leaf badpat2 { type string { oc-ext:posix-pattern \"(unclosed\"; } }\n")
+	}
+	if k%3 != 2 {
+		body.WriteString(pad + "  leaf badrange { type uint8 { range \"300..400\"; } }\n")
+	}
+	if k == 5 { // an error of the typedef stage ends Process before the leaves are looked at: one set only
+		body.WriteString("  typedef t" + K + " { type string { length \"5..2\"; } }\n")
+	} else {
+		body.WriteString("  typedef t" + K + " { type string { length \"1..5\"; } }\n")
+	}
+	if k%3 != 0 {
+		body.WriteString(pad + "  leaf unknown { type no-such-type; }\n")
+	}
+	body.WriteString("  leaf viatd { type t" + K + "; }\n")
+	body.WriteString(pad + "  leaf dflt { type enumeration { enum a; enum b; } default c; }\n")
+	if k == c19NErrSets-1 { // and one set without any error
+		body.Reset()
+		body.WriteString("  leaf fine { type string { oc-ext:posix-pattern \"^[0-9a-f]+$\"; } }\n")
+	}
+	main := "module errset-" + K + " {\n  namespace \"urn:errset:" + K + "\";\n  prefix e" + K + ";\n  import openconfig-extensions { prefix oc-ext; }\n" +
+		body.String() + "}\n"
+	return c19Set{label: "errset-" + K, srcs: []c19Src{{"ext-of-" + K + ".yang", ext}, {"errset-" + K + ".yang", main}}}
+}
+
+func c19ErrSets(iters int, seed int64, repo string) int {
+	self, err := os.Executable()
+	if err != nil {
+		fmt.Println("DIFF mode=errsets cannot find own executable:", err)
+		return 3
+	}
+	sets := make([]c19Set, c19NErrSets)
+	want := make([]string, c19NErrSets)
+	withErrors := 0
+	for k := range sets {
+		sets[k] = c19ErrSet(k)
+		out, err := exec.Command(self, "race", "errdump", strconv.Itoa(k), "0").Output()
+		if err != nil {
+			fmt.Printf("DIFF mode=errsets seed=%d fresh process for set %d failed: %v\n", seed, k, err)
+			return 3
+		}
+		want[k] = string(out)
+		if !strings.HasPrefix(want[k], "errors=[]") {
+			withErrors++
+		}
+	}
+	if withErrors < c19NErrSets-1 {
+		fmt.Printf("DIFF mode=errsets seed=%d only %d of the sets report errors: the generator lost its point\n", seed, withErrors)
+		return 3
+	}
+	rnd := rand.New(rand.NewSource(seed))
+	var mu sync.Mutex
+	var diffs []string
+	report := func(phase string, it, g, k int, got string) {
+		mu.Lock()
+		diffs = append(diffs, fmt.Sprintf("DIFF mode=errsets seed=%d phase=%s iteration=%d goroutine=%d set=%s: got %.300q, a fresh process handling this set alone gives %.300q",
+			seed, phase, it, g, sets[k].label, got, want[k]))
+		mu.Unlock()
+	}
+	runs := 0
+	for it := 0; it < iters; it++ {
+		// one after the other, in a random order (what came before must not matter)
+		for _, k := range rnd.Perm(c19NErrSets) {
+			ms, errs := c19Load(sets[k])
+			if got := c19Dump(ms, errs); got != want[k] {
+				report("sequence", it, 0, k, got)
+			}
+			runs++
+		}
+		// side by side
+		pick := make([]int, c19N)
+		for g := range pick {
+			pick[g] = rnd.Intn(c19NErrSets)
+		}
+		start := make(chan struct{})
+		var wg sync.WaitGroup
+		for g := 0; g < c19N; g++ {
+			wg.Add(1)
+			go func(g int) {
+				defer wg.Done()
+				<-start
+				ms, errs := c19Load(sets[pick[g]])
+				if got := c19Dump(ms, errs); got != want[pick[g]] {
+					report("parallel", it, g, pick[g], got)
+				}
+			}(g)
+		}
+		close(start)
+		wg.Wait()
+		runs += c19N
+	}
+	return c19Finish("errsets", iters, seed, runs, c19NErrSets, diffs)
 }
